@@ -92,6 +92,11 @@ func (v pathValue) Int() int {
 	return v.iv
 }
 
+// IsInt32 tells if the integer value fits an int32 (Int32 panics otherwise)
+func (v pathValue) IsInt32() bool {
+	return v.iv <= math.MaxInt32 && v.iv >= math.MinInt32
+}
+
 func (v pathValue) Int32() int32 {
 	if v.iv > math.MaxInt32 || v.iv < math.MinInt32 {
 		panic("integer overflow")
@@ -350,6 +355,9 @@ func (cur *FieldMask) GetPath(desc *thrift_reflection.TypeDescriptor, path strin
 
 			var f *thrift_reflection.FieldDescriptor
 			if typ == pathTypeLitInt {
+				if !tok.val.IsInt32() {
+					return nil, false
+				}
 				f = st.GetFieldById(tok.val.Int32())
 				if f == nil {
 					return nil, false
